@@ -14,8 +14,10 @@ import (
 	"errors"
 	"fmt"
 	"math/rand"
+	"os"
 	"sort"
 	"strings"
+	"time"
 
 	"git.defalsify.org/vise.git/cache"
 	"git.defalsify.org/vise.git/db"
@@ -74,7 +76,7 @@ func fresListTerm(fs []eFres) string {
 	return hx.List(r)
 }
 
-func kvTerm(l []kv) string {
+func ekvTerm(l []kv) string {
 	r := make([]string, len(l))
 	for i, e := range l {
 		r[i] = fmt.Sprintf("(%s, %s)", hx.S(e.K), hx.S(e.V))
@@ -87,7 +89,7 @@ func (a *eApp) term() string {
 	for i, s := range a.Funcs {
 		fn[i] = fmt.Sprintf("(%s, %s)", hx.S(s), fresListTerm(a.Fn[s]))
 	}
-	return fmt.Sprintf("(mkApp %s %s %s %s)", kvTerm(a.Code), kvTerm(a.Tpl), kvTerm(a.Menu), hx.List(fn))
+	return fmt.Sprintf("(mkApp %s %s %s %s)", ekvTerm(a.Code), ekvTerm(a.Tpl), ekvTerm(a.Menu), hx.List(fn))
 }
 
 func (c *eCfg) term() string {
@@ -302,6 +304,17 @@ func doRequest(en *engine.DefaultEngine, input []byte, finish bool) (cont bool, 
 }
 
 func runEngineCase(a *eApp, c *eCfg, persisted bool, inputs [][]byte) ([]eStep, error) {
+	// watchdog: a generated application must not make the real engine loop
+	done := make(chan struct{})
+	defer close(done)
+	go func() {
+		select {
+		case <-done:
+		case <-time.After(30 * time.Second):
+			fmt.Fprintf(os.Stderr, "harness: engine case did not finish in 30s: %s\n", a.term())
+			os.Exit(4)
+		}
+	}()
 	w := &eWorld{counts: map[string]int{}}
 	rs, err := buildResource(a, w)
 	if err != nil {
@@ -554,7 +567,7 @@ func genApp(r *rand.Rand) genOut {
 	}
 	var desc []string
 	all := append(append([]string{}, g.nodes...), "_catch")
-	for _, n := range all {
+	for nodeIdx, n := range all {
 		var code []byte
 		var src []string
 		add := func(s string, b []byte) { code = append(code, b...); src = append(src, s) }
@@ -606,10 +619,18 @@ func genApp(r *rand.Rand) genOut {
 				if mode {
 					mb = 1
 				}
-				d := g.dest(n)
-				if d == ">" || d == "<" || d == "." || d == "nonode" {
-					d = pick(r, g.nodes)
+				// CATCH runs before the first HALT: only forward targets, so that no cycle of
+				// moves avoids a HALT (the engine would loop forever)
+				var later []string
+				for j, cand := range g.nodes {
+					if j > nodeIdx {
+						later = append(later, cand)
+					}
 				}
+				if n == "_catch" || len(later) == 0 {
+					continue
+				}
+				d := pick(r, later)
 				add(fmt.Sprintf("CATCH %s %d %v", d, fl, mode), line(vm.CATCH, []string{d}, minBE(fl), []uint8{mb}))
 			case k < 58:
 				fl := g.flag(false)
